@@ -64,6 +64,9 @@ def s2m_rules(ctx, fv):
     fmts = formats_in(fv, loop["body"])
     okR = len(fmts) == 1 and fmt_template(fmts[0][1]) == "{}:{}-{}" and fmts[0][1][2] == (
         ("call", N2K, ("proj", 0, item), msize), ("proj", 1, item), ("proj", 2, item))
+    if not okR:
+        # the run text assembled piecewise into a String (`push_str(&kmer); push_str(&format!(":{}-{}", s, e))`)
+        okR = run_pieces_in_loop(fv, loop) in (expected_run_pieces(item, msize), [("lit", "\t")] + expected_run_pieces(item, msize))
     it = fv.term(loop["iter"])
     m_given = set(s[4] for s in subterms(it) if s[0] == "call" and s[1] in MGEN_NEW and len(s) == 5)
     okR = okR and m_given == {msize}
@@ -189,6 +192,18 @@ def m2s_rules(ctx, fv):
         arrs = [s for s in subterms(ins) if s[0] == "array" and len(s) == 2]
         if arrs:
             t2 = arrs[0][1]
+    if not ok and am is not None and cname(am).endswith("or_default"):
+        # `map.entry(k).or_default().get_mut().push(x)`: one push serves the new and the existing entry alike
+        chain = am
+        for _ in range(3):
+            nxt = fv.parent.get(id(chain))
+            if nxt is None or nxt.get("k") not in ("mcall", "addr", "un"):
+                break
+            chain = nxt
+            if chain.get("k") == "mcall" and cname(chain).endswith("Vec::push"):
+                t1 = t2 = fv.term(chain["args"][0])
+                ok = True
+                break
     want = None
     if t1 is not None and t1[0] == "tup" and len(t1) == 4:
         want = t1[1][0] == "field" and t1[1][2] == "id" and t1[2] == ("proj", 1, item) and t1[3] == ("proj", 2, item)
@@ -319,6 +334,10 @@ def string_line_rules(ctx, fv, then, loop, fmts):
     ok_id = init[0] == "field" and init[2] == "id" and contains(init, lambda s_: s_[0] == "call" and s_[1].endswith("Iterator::next"))
     ok_tail = len(apps_out) == 1 and lit(apps_out[0][1]) == "\t\n"
     ok_run = len(apps_in) == 2 and lit(apps_in[0][1]) == "\t" and fmts and apps_in[1][1] == fmts[0][1]
+    if not ok_run:
+        it_ = ("item", fv.term(loop["iter"]))
+        ms_ = set(s_[4] for s_ in subterms(fv.term(loop["iter"])) if s_[0] == "call" and s_[1] in MGEN_NEW and len(s_) == 5)
+        ok_run = len(ms_) == 1 and run_pieces_in_loop(fv, loop, lid) == [("lit", "\t")] + expected_run_pieces(it_, next(iter(ms_)))
     branchy = [x for x in walk(loop["body"]) if x.get("k") in ("if", "match", "break", "continue", "ret")]
     rty = w["recv"].get("ty", "")
     # one write on every path, after the final append
@@ -335,3 +354,31 @@ def string_line_rules(ctx, fv, then, loop, fmts):
     ctx.check("C10.W", "seq_to_min:one_text_per_run", ok_run and not branchy, "one run text per iterator item",
               "the run loop does not append exactly TAB + run text per item", line_of(loop))
     return True
+
+
+
+def expected_run_pieces(item, msize):
+    return [("term", ("call", N2K, ("proj", 0, item), msize)), ("lit", ":"), ("term", ("proj", 1, item)), ("lit", "-"),
+            ("term", ("proj", 2, item))]
+
+
+def run_pieces_in_loop(fv, loop, lid=None):
+    """the string pieces appended to one String local per iteration of the run loop, in order"""
+    from ..core import string_pieces, _merge_lits
+    apps = []
+    for n in walk(loop["body"]):
+        if n.get("k") == "mcall" and n["recv"].get("k") == "local" and cname(n).split("::")[-1] in ("push", "push_str") \
+                and (n["recv"].get("ty") or "").lstrip("&").replace("mut ", "").endswith("string::String"):
+            if lid is not None and n["recv"].get("id") != lid:
+                continue
+            apps.append(n)
+    if not apps or len(set(a["recv"]["id"] for a in apps)) != 1:
+        return None
+    ps = []
+    for n in apps:
+        a = fv.term(n["args"][0])
+        if cname(n).endswith("::push"):
+            ps.append(("lit", a[1]) if a[0] == "lit" and isinstance(a[1], str) else ("term", a))
+        else:
+            ps.extend(string_pieces(fv, a))
+    return _merge_lits(ps)
